@@ -243,7 +243,7 @@ func run(path string) {
 			}
 			classes[place] = true
 			idch := t1.ID != t2.ID
-			rep := map[string]interface{}{"base": base, "after": after, "mutation": e.M, "class": e.Class,
+			rep := map[string]interface{}{"export": json.RawMessage(doc), "base": base, "after": after, "mutation": e.M, "class": e.Class,
 				"id_before": t1.ID.String(), "id_after": t2.ID.String(), "expected_id_change": e.Exp.ID}
 			if idch != e.Exp.ID {
 				report("txid:"+word(idch)+":"+place,
@@ -278,7 +278,7 @@ func run(path string) {
 			r2, h2, m2 := concretiseBlock(&after)
 			place := e.M.T + "." + e.M.F
 			classes["block."+place] = true
-			rep := map[string]interface{}{"base": base, "after": after, "mutation": e.M, "class": e.Class,
+			rep := map[string]interface{}{"export": json.RawMessage(doc), "base": base, "after": after, "mutation": e.M, "class": e.Class,
 				"hash_before": h1.String(), "hash_after": h2.String(), "root_before": r1.String(), "root_after": r2.String()}
 			if (r1 != r2) != e.Exp.Root {
 				report("merkleroot:"+word(r1 != r2)+":"+place,
